@@ -19,7 +19,7 @@ RULE = ("evaluations = assignments computed by compiled experiments over determi
         "(independence); distinct_nontrivial = number of distinct configurations tested whose population hit >= 2 groups")  # fmt: skip
 
 ALPHA = 1e-9
-FAMILIES = vals.FAMILIES + ["two-field", "three-field", "long-key"]
+FAMILIES = vals.FAMILIES + ["two-field", "three-field", "long-key", "cond-on-splitter"]
 OFFSETS = [0, 10**6, 10**9, 2**31]
 SALTS = [None, "", "a", "b", "exp_2024", "Checkout-Button", "checkout-button", " checkout-button"]
 VECTORS = {"11": ["1", "1"], "123": ["1", "2", "3"], "19": ["1", "9"], "hh": ["0.5", "0.5"], "ten": ["1"] * 10,
@@ -27,11 +27,18 @@ VECTORS = {"11": ["1", "1"], "123": ["1", "2", "3"], "19": ["1", "9"], "hh": ["0
            "z10": ["1", "0"], "z901": ["9", "0", "1"], "z0": ["0", "3", "0.0", "1"]}  # a switched-off arm serves nobody
 
 
+# labels of a vector when they are not g0, g1, ...: a label listed twice owns the SUM of its weights (and nothing else changes)
+LABELS = {"rep181": ["T", "C", "T"], "rep2112": ["a", "b", "b", "a"]}
+VECTORS.update({"rep181": ["10", "80", "10"], "rep2112": ["2", "1", "1", "2"]})
+
+
 def population(fam, off, m):
     if fam == "two-field":
         return [{"uid": off + i, "org": ("acme", "globex", "initech")[i % 3]} for i in range(m)]
     if fam == "three-field":
         return [{"uid": f"{off + i:08d}", "org": i % 7, "zone": ("eu", "us")[(i // 7) % 2]} for i in range(m)]
+    if fam == "cond-on-splitter":
+        return [{"uid": off + i} for i in range(m)]
     if fam == "long-key":  # realistic composite ids: a long common prefix, the distinguishing part at the end
         return [{"uid": "tenant=acme-corporation-emea/workspace=" + "w" * 120 + f"/user={off + i:012d}"} for i in range(m)]
     return [{"uid": vals.id_family(fam, off + i)} for i in range(m)]
@@ -41,9 +48,16 @@ def fields(fam):
     return {"two-field": ("uid", "org"), "three-field": ("uid", "org", "zone")}.get(fam, ("uid",))
 
 
+def labels_of(vname):
+    return LABELS.get(vname) or [f"g{i}" for i in range(len(VECTORS[vname]))]
+
+
 def build_for(fam, salt, vname):
     v = VECTORS[vname]
-    ast = ("prog", "e", salt, fields(fam), ("ret", tuple((f"g{i}", w) for i, w in enumerate(v))))
+    ret = ("ret", tuple(zip(labels_of(vname), v)))
+    if fam == "cond-on-splitter":  # the splitter is also a condition field (as in the README's example): it is hashed all the same
+        ret = ("if", ("cmp", ("id", "uid"), "!=", ("lit", -1)), ret, ("else", ret))
+    ast = ("prog", "e", salt, fields(fam), ret)
     # (one salt of every sweep is written as ONE line with a block comment between all tokens: the statistics of a program do
     # not depend on how its source is laid out)
     text = rp.render(ast, sep=" /* c */ ") if salt == "a" else rp.render(ast)
@@ -51,7 +65,9 @@ def build_for(fam, salt, vname):
 
 
 def assign(ev, vname, pop):
-    idx = {f"g{i}": i for i in range(len(VECTORS[vname]))}
+    idx = {}
+    for i, lab in enumerate(labels_of(vname)):
+        idx.setdefault(lab, i)  # (a repeated label counts under its first entry)
     out = []
     for env in pop:
         r = impl.call(ev, env)
@@ -68,6 +84,11 @@ def _work(units):
         chain = []
         for vname in vnames:
             v = [float(x) for x in VECTORS[vname]]
+            if vname in LABELS:  # aggregate the weights of equal labels onto the first entry
+                labs, agg = LABELS[vname], [0.0] * len(v)
+                for i, lab in enumerate(labs):
+                    agg[labs.index(lab)] += v[i]
+                v = agg
             T = sum(v)
             results = {}
             for salt in salts:
@@ -197,7 +218,7 @@ def run(res, tier):
     hostile_runs(res, "mc.checks.c04", "_work", [["int", 0, ["eight125", "six1666"], [None], 150000], ["uuid", 0, ["123", "hh"], [None, "a"], 20000]])
     if tier == "quick":
         m = 20000
-        units = [(f, o, ["11", "123", "ten", "hh", "z901", "z10"], [None, "a", "exp_2024", "Checkout-Button", "checkout-button"], m) for f in FAMILIES for o in (0, 10**9)]
+        units = [(f, o, ["11", "123", "ten", "hh", "z901", "z10", "rep181"], [None, "a", "exp_2024", "Checkout-Button", "checkout-button"], m) for f in FAMILIES for o in (0, 10**9)]
     else:
         m = 200000
         units = [(f, o, list(VECTORS), SALTS, m) for f in FAMILIES for o in OFFSETS]
